@@ -1,14 +1,18 @@
 (* C11 - Sqrt is correctly rounded; Cbrt is within one unit and exact on perfect cubes.
-   The Newton iterations of Sqrt and Cbrt are NOT modelled in Coq; the property is decided per input by
-   exact integer arithmetic on the implementation's result (Oracle/JudgeRoots.v): no floating point, no
-   tolerance.  What IS machine-checked here: the integer core of the Sqrt oracle computes exactly the
-   specification "sqrt(Y) rounded half-even to a multiple of U = 10^k":
-       ((2q'-1) U)^2 <= 4Y <= ((2q'+1) U)^2,   equality (a tie) only with q' even,   exact <-> (q' U)^2 = Y.
-   So a disagreement between Sqrt and the oracle is a proven violation of correct rounding on that input.
-   The Cbrt oracle is the defining inequality itself ((c-1)^3 <= x <= (c+1)^3 on exactly scaled integers,
-   and k^3 = x for perfect cubes found by an integer cube root whose result is verified by cubing). *)
+   Sqrt and Cbrt are modelled in full (Model/Roots.v) and the model is compared with the implementation result
+   for result; the property itself is decided per input by exact integer arithmetic on the implementation's result
+   (Oracle/JudgeRoots.v): no floating point, no tolerance.  Machine-checked here:
+   - the integer core of the Sqrt oracle computes exactly the specification "sqrt(Y) rounded half-even to a
+     multiple of U = 10^k":  ((2q'-1) U)^2 <= 4Y <= ((2q'+1) U)^2, equality (a tie) only with q' even,
+     exact <-> (q' U)^2 = Y.  So a disagreement between Sqrt and the oracle is a proven violation on that input.
+   - on the model: the Inexact flag sqrtCorrect returns is false exactly when the square of the returned value IS
+     the operand (exact multiplication and comparison, inside the exponent limits).
+   The Cbrt oracle is the defining inequality itself ((c-1)^3 <= x <= (c+1)^3 on exactly scaled integers, and
+   k^3 = x for perfect cubes found by an integer cube root whose result is verified by cubing).
+   NOT proven: that the Newton iteration always lands within reach of the final correction. *)
 From Coq Require Import ZArith Bool.
-From Apd Require Import Generated.Consts Model.Base Model.NumDigits Oracle.JudgeRoots Proofs.RootsProofs.
+From Apd Require Import Generated.Consts Model.Base Model.NumDigits Model.Decimal Model.Context Model.Roots Oracle.JudgeRoots
+  Proofs.Core Proofs.SetExponent Proofs.RootsProofs Proofs.SqrtExact.
 Open Scope Z_scope.
 
 Theorem C11_sqrt_oracle_is_half_even_rounding k Y : 0 < Y -> 1 <= k -> 10 ^ k <= Z.sqrt Y ->
@@ -21,6 +25,25 @@ Theorem C11_sqrt_oracle_is_half_even_rounding k Y : 0 < Y -> 1 <= k -> 10 ^ k <=
   (exact = true <-> (q' * U) * (q' * U) = Y).
 Proof. exact (round_sqrt_int_spec k Y). Qed.
 Print Assumptions C11_sqrt_oracle_is_half_even_rounding.
+
+(* sqrtCorrect on the model: Inexact = false iff (returned value)^2 = operand.  same_number c1 e1 c2 e2: the two
+   positive values c1*10^e1 and c2*10^e2 are equal *)
+Theorem C11_sqrt_inexact_iff_square_differs est : est_in_range est -> forall nc d x res0 d2 f,
+  sqrt_correct est nc d x res0 = Ok (d2, f) ->
+  (exists d1, sqrt_fix est 4 (prec nc) d x = Ok (EdOk _ d1)) ->
+  form_of d2 = Finite -> 0 < coeff d2 -> in_lim (exp d2) -> in_lim (exp d2 + exp d2) ->
+  in_lim (exp d2 + exp d2 + ndigits (coeff d2 * coeff d2) - 1) ->
+  form_of x = Finite -> neg x = false -> 0 < coeff x ->
+  (Inexact f = false <-> same_number (coeff d2 * coeff d2) (exp d2 + exp d2) (coeff x) (exp x)).
+Proof. exact (sqrt_correct_inexact_iff est). Qed.
+Print Assumptions C11_sqrt_inexact_iff_square_differs.
+
+(* non-vacuity: the model's Sqrt of 6.25 at Precision 5 is 2.5000 with no Inexact; of 2 it is 1.4142 with Inexact *)
+Example C11_model_examples :
+  (match ctx_sqrt go_est (mkCtx 5 99 (-99) c0 RHalfEven) (mkDec Finite false (-2) 625) with Ok r => (rdec r, Inexact (rcond r)) | _ => (None, true) end,
+   match ctx_sqrt go_est (mkCtx 5 99 (-99) c0 RHalfEven) (mkDec Finite false 0 2) with Ok r => (rdec r, Inexact (rcond r)) | _ => (None, false) end)
+  = ((Some (mkDec Finite false (-4) 25000), false), (Some (mkDec Finite false (-4) 14142), true)).
+Proof. vm_compute. reflexivity. Qed.
 
 (* the hard cases that used to be misrounded: sqrt(0.9999999) at 7 digits, sqrt(9025) at 1 digit (a tie) *)
 Example C11_examples :
